@@ -7,9 +7,9 @@ package checks
 
 import (
 	"context"
-	"os"
 	"crypto/sha1"
 	"fmt"
+	"os"
 	"reflect"
 	"strings"
 	"sync"
@@ -81,7 +81,7 @@ type c18CacheScenario struct {
 	Path     string // populate2 | populate
 	Steps    []string
 	Readers  int
-	Bound    int // preemption bound
+	Bound    int    // preemption bound
 	Reads    string // rows | index | api
 	Purge    bool
 	Handlers bool // an event handler reads the cache from the dispatcher goroutine
